@@ -537,7 +537,13 @@ impl StringGenerator {
                     // rle is always >= x + 1 but "x - 1" may overflow.
                     rle -= 1;
                     rle -= x;
-                    if self.options.use_cursor_forward && line[x].ch == ' ' && line[x].cur_state.bg_idx == 0 && !line[x].cur_state.is_blink {
+                    // a run that reaches the right margin must be printed: CSI n C stops at the last column and does not wrap
+                    if self.options.use_cursor_forward
+                        && line[x].ch == ' '
+                        && line[x].cur_state.bg_idx == 0
+                        && !line[x].cur_state.is_blink
+                        && x + rle + 1 < layer.get_width() as usize
+                    {
                         let fmt = &format!("\x1B[{}C", rle + 1);
                         let output = fmt.as_bytes();
                         if output.len() <= rle {
